@@ -167,6 +167,7 @@ type defRef struct {
 type DFile struct {
 	Path     string
 	Includes []int
+	IncPaths []string // the path as written, parallel to Includes ("" = the root-relative path of the file)
 	NS       []DNS
 	Typedefs []*DTypedef
 	Consts   []*DConstDef
@@ -252,8 +253,12 @@ func argList(sb *strings.Builder, fs []*DField) {
 func (d *Doc) renderFile(fi int) string {
 	f := d.Files[fi]
 	var sb strings.Builder
-	for _, j := range f.Includes {
-		fmt.Fprintf(&sb, "include \"%s\"\n", d.Files[j].Path)
+	for k, j := range f.Includes {
+		p := d.Files[j].Path
+		if k < len(f.IncPaths) && f.IncPaths[k] != "" {
+			p = f.IncPaths[k]
+		}
+		fmt.Fprintf(&sb, "include \"%s\"\n", p)
 	}
 	for _, ns := range f.NS {
 		fmt.Fprintf(&sb, "namespace %s %s\n", ns.Lang, ns.Name)
